@@ -19,7 +19,21 @@ LEVEL_TEXT = ("PARTIAL. Proved for all sizes: (C03_lemma2) _unitary([[a],[b]], b
               "phase.e_c; (C03_knill) for an ORTHONORMAL complete eigen-system the ordered product of the retained factors "
               "(I + (l_i-1)|w_i><w_i|), in any order, skipping l_i = 1, equals sum l_i |w_i><w_i|; (C03_knill_factor) "
               "prep.diag(z at 0).prep^dagger is one such factor and X..X MCP X..X is that diagonal for all n; (C03_extend) "
-              "[V | conj(null(V^T))] has orthonormal columns and is unitary when the dimensions add up. Tied exactly: "
+              "[V | conj(null(V^T))] has orthonormal columns and is unitary when the dimensions add up; WHOLE CIRCUITS "
+              "(C03_ccd_full) for every n, m<=n, over any commutative ring with conjugation: with the run described by its data "
+              "(every MCG / UCG 2x2 matrix, the unknown unimodular diagonal each UCGate(up_to_diagonal=True) leaves behind, the "
+              "closing DiagonalGate), IF the columns are orthonormal, every 2x2 meets Lemma 2 on the column it was computed from "
+              "and is unitary, THEN after all G_k column c is phi_c.e_c with |phi_c|=1, with the closing diagonal conj(phi) the "
+              "circuit maps column c exactly to e_c (m>0), preserves all inner products, and every left inverse "
+              "(circuit.inverse()) maps e_c to column c of the isometry; (C03_ccd_code) over C, for EVERY isometry, with the exact "
+              "Lemma-2 matrices chosen from the current working isometry as the code does and ANY unimodular UCGate diagonals, the "
+              "loop ends with phi_c.e_c and the closing diagonal conj(phi) gives e_c (no hypothesis on the matrices left); "
+              "(C03_knill_full) in the amplitude semantics, every state, "
+              "n>=1: IF prep_i denotes a unitary with column |0..0> = w_i and prep_i.inverse() its adjoint, the w_i orthonormal "
+              "and complete, dropped eigenvalues = 1, THEN the emitted circuit (prep_i^-1; X^n; MCP; X^n; prep_i per retained i, "
+              "loop order) denotes sum l_i |w_i><w_i| on wires 0..n-1 and maps |j0> x phi to (its column j0) x phi; (C03_csd_full) "
+              "scheme csd = C02_qsd_full in isometry mode: the whole buildUnitary-qsd gate list maps |j0> x phi (top n-m wires 0) "
+              "to (column j0 of the extended unitary) x phi, given the kernel specifications at every node. Tied exactly: "
               "_a/_b/_k_s for k<64,i<8; the (k,i) schedule (MCG condition, control lists after reverse_bits, start, basis, "
               "index pairs, closing diagonal) for all n<=5, m<=n; Lemma-2 blocks numerically; Knill's retained eigenvalues and "
               "gate skeleton. Tested only: Operator(decompose(V, scheme))[:, :2^m] vs V, n<=5 (6 thorough), all m, three "
@@ -30,7 +44,8 @@ LEVEL_NOTE = ("Trusted: Lean kernel; scipy schur/null_space/cossin, numpy eig, q
               "which the working copy absorbs (the code simulates the gate it actually appended).")
 LEAN_TARGETS = ["QclibModel.Props.C03"]
 THEOREMS = ["Qclib.C03_lemma2", "Qclib.C03_ccd_index", "Qclib.C03_ccd_preserves", "Qclib.C03_ccd_schedule",
-            "Qclib.C03_ccd_sweep", "Qclib.C03_knill", "Qclib.C03_knill_factor", "Qclib.C03_extend"]
+            "Qclib.C03_ccd_sweep", "Qclib.C03_knill", "Qclib.C03_knill_factor", "Qclib.C03_extend",
+            "Qclib.C03_ccd_full", "Qclib.C03_ccd_code", "Qclib.C03_knill_full", "Qclib.C03_csd_full"]
 TRUSTED = [
     "scipy.linalg.schur(U, output='complex') of a unitary: T diagonal (to 1e-8), Z unitary, U = Z T Z^dagger (re-checked per call)",
     "scipy.linalg.null_space(V^T): orthonormal columns N with V^T N = 0 and 2^n - 2^m columns (re-checked per call)",
